@@ -297,3 +297,28 @@ func (h *History) Dump() string {
 	}
 	return b.String()
 }
+
+// CheckC07 — Close and cancel terminate safely: every call returned, channels closed, calls refused
+// afterwards, no Pub/Sub goroutine left.
+func (h *History) CheckC07() []string {
+	defer h.lock()()
+	v := h.problemsWith("liveness:")
+	if !h.PostChecked {
+		return v
+	}
+	if h.PostPublishErr == nil {
+		v = append(v, "close: Publish after Close returned nil")
+	}
+	if h.PostSubscribeErr == nil {
+		v = append(v, "close: Subscribe after Close returned nil")
+	}
+	if h.LeakedGoroutines > 0 {
+		v = append(v, fmt.Sprintf("close: %d Pub/Sub goroutines remain after Close, e.g.\n%s", h.LeakedGoroutines, h.LeakSample))
+	}
+	for _, s := range h.Subs {
+		if s.Started && s.Err == nil && s.ClosedT == 0 {
+			v = append(v, fmt.Sprintf("close: output channel of subscription #%d was not closed", s.Index))
+		}
+	}
+	return v
+}
